@@ -120,6 +120,40 @@ func runDamage(r *Runner) {
 			}
 		}
 	}
+	// a whole, valid record of the same length copied over another one (a misdirected write): every checksum still
+	// holds, only the key can tell
+	starts := recordStarts(r, tree, files)
+	ntrans := r.C.N("transplants", 8)
+	for _, n := range files {
+		st := starts[n]
+		f := tree.File(n)
+		if len(st) < 2 || !strings.HasSuffix(n, ".data") {
+			continue
+		}
+		ext := func(i int) int64 {
+			end := f.Size
+			if i+1 < len(st) {
+				end = st[i+1]
+			}
+			return end - st[i]
+		}
+		type pair struct{ dst, src int }
+		var pairs []pair
+		for i := range st {
+			for j := range st {
+				if i != j && ext(i) == ext(j) && ext(i) > 0 && ext(i) < blockSz && st[i]/blockSz == (st[i]+ext(i)-1)/blockSz && st[j]/blockSz == (st[j]+ext(j)-1)/blockSz {
+					pairs = append(pairs, pair{i, j})
+				}
+			}
+		}
+		for k := 0; k < ntrans && len(pairs) > 0; k++ {
+			p := pairs[ctx.rng.Intn(len(pairs))]
+			ctx.tryDamage(tree, cfg, Damage{File: n, Kind: "transplant", Off: st[p.dst], Src: st[p.src], Len: int(ext(p.dst))})
+			if r.violated() {
+				return
+			}
+		}
+	}
 	r.add("damage_images", int64(ctx.images))
 }
 
@@ -222,6 +256,14 @@ func applyDamage(tree *vos.Tree, d Damage) (*vos.Tree, bool) {
 	case "truncate":
 		f.Data = f.Data[:d.Off]
 		f.Size = d.Off
+	case "transplant":
+		if d.Src < 0 || d.Len <= 0 || d.Src+int64(d.Len) > f.Size || d.Off+int64(d.Len) > f.Size {
+			return nil, false
+		}
+		if string(f.Data[d.Src:d.Src+int64(d.Len)]) == string(f.Data[d.Off:d.Off+int64(d.Len)]) {
+			return nil, false
+		}
+		copy(f.Data[d.Off:d.Off+int64(d.Len)], append([]byte(nil), f.Data[d.Src:d.Src+int64(d.Len)]...))
 	default:
 		return nil, false
 	}
@@ -239,6 +281,16 @@ type damageRead struct {
 // tryDamage applies one stored-byte fault and judges everything the engine then serves.
 func (ctx *crashCtx) tryDamage(tree *vos.Tree, cfg Config, d Damage) {
 	r := ctx.r
+	if d.Live {
+		ctx.tryDamageLive(tree, cfg, d)
+		return
+	}
+	if r.C.Damage == nil && ctx.images%3 == 0 {
+		ctx.tryDamageLive(tree, cfg, d)
+		if r.violated() || r.Infra != "" {
+			return
+		}
+	}
 	t, ok := applyDamage(tree, d)
 	if !ok {
 		return
@@ -253,6 +305,9 @@ func (ctx *crashCtx) tryDamage(tree *vos.Tree, cfg Config, d Damage) {
 		desc += fmt.Sprintf(" bit %d", d.Bit)
 	} else if d.Len > 0 {
 		desc += fmt.Sprintf(" length %d", d.Len)
+	}
+	if d.Kind == "transplant" {
+		desc += fmt.Sprintf(" (the record at offset %d copied over it)", d.Src)
 	}
 	pin := func() { dd := d; r.C.Damage = &dd }
 	if rec.oracle == "infra" {
@@ -376,8 +431,17 @@ func sameKeys(keys []string, s State) bool {
 
 // recoverDamaged is recoverImage with a tolerant reader: every Get may fail, nothing may panic.
 func (ctx *crashCtx) recoverDamaged(t *vos.Tree, cfg Config, rd *damageRead) *recovery {
-	r := ctx.r
 	return ctx.recoverImageWith(t, cfg, func(db *kv.DB, rec *recovery) {
+		ctx.readTolerant(db, rec, rd)
+	}, func(root string, rec *recovery) {
+		ctx.scanTolerant(t, root, rec)
+	})
+}
+
+// readTolerant reads everything through ListKeys, Get and Fold; every call may fail, nothing may panic.
+func (ctx *crashCtx) readTolerant(db *kv.DB, rec *recovery, rd *damageRead) {
+	r := ctx.r
+	{
 		p, fr := protect(func() {
 			for _, k := range db.ListKeys() {
 				rd.keys = append(rd.keys, string(k))
@@ -426,8 +490,12 @@ func (ctx *crashCtx) recoverDamaged(t *vos.Tree, cfg Config, rd *damageRead) *re
 			rec.failure = fmt.Sprintf("reading the damaged database: %s (in %s)", clip(p, 300), fr)
 			rec.oracle = "damage-panic"
 		}
-	}, func(root string, rec *recovery) {
-		// the sequential reader over every data and hint file of the damaged directory must not panic either
+	}
+}
+
+// scanTolerant: the sequential reader over every data and hint file of the damaged directory must not panic either.
+func (ctx *crashCtx) scanTolerant(t *vos.Tree, root string, rec *recovery) {
+	{
 		for n := range t.Names {
 			if !strings.HasPrefix(n, "db/") {
 				continue
@@ -470,5 +538,103 @@ func (ctx *crashCtx) recoverDamaged(t *vos.Tree, cfg Config, rd *damageRead) *re
 				rec.oracle = "damage-panic"
 			}
 		}
-	})
+	}
+}
+
+// tryDamageLive alters the bytes of a data file while the database is open on it (standard I/O; a mapped file cannot
+// be cut under its mapping): the index was built from the undamaged files, so every Get goes through the
+// read-by-position path into the damaged bytes and must return the value written or fail.
+func (ctx *crashCtx) tryDamageLive(tree *vos.Tree, cfg Config, d Damage) {
+	r := ctx.r
+	if cfg.IO != 0 || !strings.HasSuffix(d.File, ".data") || !strings.HasPrefix(d.File, "db/") {
+		return
+	}
+	t, ok := applyDamage(tree, d)
+	if !ok {
+		return
+	}
+	f := t.File(d.File)
+	if f == nil {
+		return
+	}
+	content := f.Content()
+	final := r.States[len(r.States)-1]
+	rd := &damageRead{got: map[string][]byte{}, errs: map[string]string{}}
+	pristine := tree.File(d.File).Content()
+	skipped := false
+	rec := ctx.recoverImageWith(tree, cfg, func(db *kv.DB, rec *recovery) {
+		// Open may have replaced the file (adoption of a finished merge): the damage was computed for the bytes of
+		// the image, so it applies only if those are still the bytes on disk
+		if cur, err := os.ReadFile(filepath.Join(rec.root, d.File)); err != nil || string(cur) != string(pristine) {
+			skipped = true
+			return
+		}
+		if err := os.WriteFile(filepath.Join(rec.root, d.File), content, 0o644); err != nil {
+			rec.failure, rec.oracle = "damaging the open file: "+err.Error(), "infra"
+			return
+		}
+		ctx.readTolerant(db, rec, rd)
+	}, nil)
+	defer os.RemoveAll(rec.root)
+	r.inc("fault_damage_live_" + d.Kind)
+	desc := fmt.Sprintf("%s of %s at offset %d while the database is open", d.Kind, d.File, d.Off)
+	if d.Kind == "flip" {
+		desc += fmt.Sprintf(" (bit %d)", d.Bit)
+	} else if d.Len > 0 {
+		desc += fmt.Sprintf(" (length %d)", d.Len)
+	}
+	if d.Kind == "transplant" {
+		desc += fmt.Sprintf(" (the record at offset %d copied over it)", d.Src)
+	}
+	pin := func() { dd := d; dd.Live = true; r.C.Damage = &dd }
+	if rec.oracle == "infra" {
+		r.Infra = rec.failure
+		return
+	}
+	if rec.failure != "" {
+		pin()
+		r.fail(strings.Replace(rec.oracle, "recovery", "damage", 1), "live:"+d.Kind, "%s: %s", desc, rec.failure)
+		return
+	}
+	if rec.openErr != nil || skipped {
+		return // the undamaged image does not open, or Open replaced the file: not this check's business
+	}
+	ks := make([]string, 0, len(r.Ever))
+	for k := range r.Ever {
+		ks = append(ks, k)
+	}
+	sort.Strings(ks)
+	for _, k := range ks {
+		if _, bad := rd.errs[k]; bad {
+			r.inc("damage_live_detected")
+			continue
+		}
+		got, served := rd.got[k]
+		want, present := final[k]
+		if !served {
+			if present {
+				pin()
+				r.fail("damage-live-key-vanished", d.Kind, "%s: Get(%q) reports key-not-found, the key holds %s", desc, k, show(want))
+				return
+			}
+			continue
+		}
+		if !present || !beq(got, want) {
+			pin()
+			class := "foreign-bytes"
+			if r.Written[k][string(got)] {
+				class = "stale-value" // bytes that were once written for this very key: no reader can tell (no sequence numbers)
+			}
+			r.fail("damage-live-served-wrong-data", d.Kind+":"+class, "%s: Get(%q) = %s without error, the value written is %s (%s)", desc, k, show(got), show(want), class)
+			if r.violated() {
+				return
+			}
+		}
+	}
+	if rd.foldBad != "" {
+		pin()
+		r.fail("damage-live-fold-wrong-data", d.Kind, "%s: %s", desc, rd.foldBad)
+		return
+	}
+	r.inc("damage_live_images")
 }
